@@ -62,6 +62,19 @@ class SymMode:
     def const(self, x):
         return SV.lift(x)
 
+    def nonempty(self, it):
+        from . import guarded
+        if not isinstance(it, (guarded.GList,)):
+            it = list(it) if not hasattr(it, "nonempty") else it
+        t = guarded.truth(it)
+        return t if isinstance(t, SB) else SB(c=bool(t))
+
+    def bv(self, name, w):
+        from .bv import SI
+        if name not in self.inputs:
+            self.inputs[name] = z3.BitVec(name, w)
+        return SI(self.inputs[name], w)
+
     def val(self, x):
         if isinstance(x, (SV, SB)):
             return x
@@ -108,6 +121,16 @@ class SymMode:
             return a / b if b.c != 0 else default
         return core.ite(b != 0, SV(t=a.zr() / b.zr()), default)
 
+    def is_nan(self, x):
+        """NaN-ness of a value of the model: NaN is a poison symbol (nan!k); it propagates through arithmetic
+        and is selected by if-then-else exactly as IEEE NaN would be."""
+        if x is None:
+            return SB(c=False)
+        x = SV.lift(x)
+        if x.c is not None:
+            return SB(c=False)
+        return SB.lift(_nan_term(x.t))
+
     def count(self, flags):
         r = SV.lift(0)
         for f in flags:
@@ -153,12 +176,33 @@ class SymMode:
         game._values[cid, 2] = core.ite(known, value, up)
 
     def expect_raises(self, exc_types, thunk):
-        """Run thunk; return True iff it raised one of exc_types."""
+        """Run thunk; return True iff it raised one of exc_types.  While the thunk runs, `assert` statements
+        with a symbolic condition fork (Python semantics) instead of becoming obligations."""
+        old = CTX.notes.get("assert_forks")
+        CTX.notes["assert_forks"] = True
         try:
             thunk()
         except exc_types:
             return True
+        finally:
+            CTX.notes["assert_forks"] = old
         return False
+
+
+def _nan_term(t):
+    if z3.is_const(t):
+        return z3.BoolVal(t.decl().kind() == z3.Z3_OP_UNINTERPRETED and t.decl().name().startswith("nan!"))
+    if z3.is_app_of(t, z3.Z3_OP_ITE):
+        c, a, b = t.children()
+        na, nb = _nan_term(a), _nan_term(b)
+        if z3.is_false(na) and z3.is_false(nb):
+            return z3.BoolVal(False)
+        return z3.simplify(z3.If(c, na, nb))
+    parts = [_nan_term(c) for c in t.children() if z3.is_arith(c)]
+    parts = [p for p in parts if not z3.is_false(p)]
+    if not parts:
+        return z3.BoolVal(False)
+    return z3.simplify(z3.Or(*parts))
 
 
 # ---------------------------------------------------------------------------------------------
@@ -290,6 +334,14 @@ class NativeMode:
     def const(self, x):
         return float(x)
 
+    def nonempty(self, it):
+        return len(list(it)) > 0
+
+    def bv(self, name, w):
+        v = int(self._num(self.given.get(name, 0))) & ((1 << w) - 1)
+        self.inputs[name] = v
+        return v
+
     def val(self, x):
         if isinstance(x, (bool,)) or type(x).__name__ == "bool_" or type(x).__name__ == "bool":
             return bool(x)
@@ -329,6 +381,9 @@ class NativeMode:
 
     def count(self, flags):
         return sum(1 for f in flags if bool(f))
+
+    def is_nan(self, x):
+        return x is not None and float(x) != float(x)
 
     def sum_(self, xs):
         return NV(sum(float(x) for x in xs))
